@@ -143,6 +143,7 @@ type Sys struct {
 	kept        []*ecs.Query
 	KeptTrouble string
 	KeptSeen    int
+	NestedBatches int
 	builders      map[string]*ecs.Builder
 	BuilderReused int
 	DetachSeen  int
@@ -447,6 +448,8 @@ func (l *recListener) Notify(w *ecs.World, e ecs.EntityEvent) {
 		s.spawnSeq++
 		if s.spawnSeq%3 == 1 {
 			s.spawn(w, &e, &ev)
+		} else if s.spawnSeq%3 == 2 {
+			s.nestedBatch(w, &e)
 		}
 	}
 	if l.sink < 0 && s.chaos && e.Contains(event.EntityRemoved) {
@@ -1191,9 +1194,31 @@ func (s *Sys) spawn(w *ecs.World, e *ecs.EntityEvent, ev *Ev) {
 		}
 	}()
 	cur := w.Ids(e.Entity)
-	variant := (s.spawnSeq / 3) % 3
+	variant := (s.spawnSeq / 3) % 4
 	var ids []ecs.ID
+	var other ecs.Entity
 	switch variant {
+	case 3:
+		// a sibling of some OTHER entity (found with a query, which is legal here): same components, same target - a table
+		// that the announcing operation may not have dealt with yet
+		skip := (s.spawnSeq / 12) % 5
+		q := w.Query(ecs.All())
+		for q.Next() {
+			x := q.Entity()
+			if x == e.Entity {
+				continue
+			}
+			if skip > 0 {
+				skip--
+				continue
+			}
+			other = x
+			q.Close()
+			break
+		}
+		if !other.IsZero() {
+			ids = w.Ids(other)
+		}
 	case 0:
 		ids = cur
 	case 1:
@@ -1217,6 +1242,8 @@ func (s *Sys) spawn(w *ecs.World, e *ecs.EntityEvent, ev *Ev) {
 	var target ecs.Entity
 	if rel >= 0 {
 		switch {
+		case variant == 3:
+			target = w.Relations().Get(other, s.IDs[rel])
 		case variant == 0:
 			target = ev.TargetAtDelivery
 		case e.OldRelation != nil && *e.OldRelation == s.IDs[rel]:
@@ -1233,4 +1260,49 @@ func (s *Sys) spawn(w *ecs.World, e *ecs.EntityEvent, ev *Ev) {
 		h = w.NewEntity(ids...)
 	}
 	s.Spawned = append(s.Spawned, Spawn{H: h, Set: set, Target: target})
+}
+
+// nestedBatch runs a batch operation from inside a notification, through a filter that matches nothing (a system that
+// sweeps for some condition on every change and usually finds nothing): no effect on the world, but the whole batch
+// machinery runs in the middle of the operation that is announcing its events.
+func (s *Sys) nestedBatch(w *ecs.World, e *ecs.EntityEvent) {
+	defer func() {
+		if r := recover(); r != nil && s.SpawnTrouble == "" {
+			s.SpawnTrouble = "batch call through a filter that matches nothing: " + fmt.Sprint(r)
+		}
+	}()
+	ids := w.Ids(e.Entity)
+	if len(ids) == 0 {
+		return
+	}
+	id := ids[(s.spawnSeq/3)%len(ids)]
+	none := ecs.All(id).Without(id)
+	n := -1
+	switch (s.spawnSeq / 3) % 5 {
+	case 0:
+		n = w.Batch().Add(&none, id)
+	case 1:
+		n = w.Batch().Remove(&none, id)
+	case 2:
+		n = w.Batch().Exchange(&none, nil, []ecs.ID{id})
+	case 3:
+		n = w.Batch().RemoveEntities(&none)
+	default:
+		rel := -1
+		for _, x := range ids {
+			if k, ok := s.idxOfID[idOf(x)]; ok && s.specs[k].IsRelation() {
+				rel = k
+			}
+		}
+		if rel < 0 {
+			n = w.Batch().RemoveEntities(&none)
+		} else {
+			none = ecs.All(s.IDs[rel], id).Without(id)
+			n = w.Batch().SetRelation(&none, s.IDs[rel], ecs.Entity{})
+		}
+	}
+	s.NestedBatches++
+	if n != 0 && s.SpawnTrouble == "" {
+		s.SpawnTrouble = fmt.Sprintf("batch call through a filter that matches nothing reports %d entities", n)
+	}
 }
